@@ -204,3 +204,12 @@ also("C08", "guarded-difference rule (T21)", "Also decides that differences of i
 also("C11", "dominance rule on existence probes", "Also decides that the storage back ends answer 'exists' only after a successful probe.")
 also("C16", "nil-test rule on optional evidence sources", "Also decides that an absent getter / variable reader / quote provider is reported, never called through (F26).")
 also("C18", "who-may-call rule on content searches in decoders", "Also decides that size-prefixed fields are delimited by their size, not by their content.")
+
+# rules added after the round-14 seeds
+also("C02", "loop-exit rule on the MRTD collection", "Also decides that the TDX allow-list is collected from every endorsed row (no early exit on a match).")
+also("C03", "loop-exit rule on the MRTD collection (shared with C02.R5)", "Also decides that every listed TDX measurement of the named RAM size reaches the allow-list.")
+also("C05", "must-pass-through rule on the hand-off block builder", "Also decides that the parser never returns successfully without having laid out the TD hand-off block.")
+also("C12", "control-dependence rule on existence probes", "Also decides that --keep_going never makes a creation gate skip its existence probe.")
+also("C13", "forward must-analysis on the manifest merge", "Also decides that the merge places the new digest and path on every path.")
+also("C15", "key-provenance rule on the measurement printers", "Also decides that measurement-only output is read from the document under the request's own count.")
+also("C19", "guarded-difference rule with count sinks (T21) over the parser package", "Also decides that position differences feeding repeat counts, sizes and bounds are non-negative.")
